@@ -286,6 +286,13 @@ func vfH_read_step_data() {
 	if err != nil {
 		nw := e.tc.nWrites()
 		p1 := e.tc.rpos - c.br.Buffered()
+		if inMsg {
+			// the open message reader keeps failing with the same error
+			var b1 [1]byte
+			n5, err5 := mr.Read(b1[:])
+			n6, err6 := mr.Read(b1[:])
+			vfAssert(n5 == 0 && n6 == 0 && err5 == err && err6 == err, "c04-open-reader-error-is-permanent")
+		}
 		_, r2, err2 := c.NextReader()
 		_, r3, err3 := c.NextReader()
 		vfAssert(err2 == err && err3 == err, "c04-error-is-sticky")
@@ -441,6 +448,7 @@ func vfH_read_step_ctl() {
 	_ = pmce
 
 	// drive the step through the public API
+	mrOpen := c.messageReader
 	var ft int
 	var err error
 	cleanEnd := false // the call completed normally on the follow-up frame
@@ -564,6 +572,13 @@ func vfH_read_step_ctl() {
 	}
 	if err != nil {
 		nw := tc.nWrites()
+		if inMsg {
+			// an error from a handler or a violation is permanent for the open reader too
+			var b1 [1]byte
+			n5, err5 := mrOpen.Read(b1[:])
+			n6, err6 := mrOpen.Read(b1[:])
+			vfAssert(n5 == 0 && n6 == 0 && err5 == err && err6 == err, "c08-open-reader-error-is-permanent")
+		}
 		_, r2, err2 := c.NextReader()
 		_, r3, err3 := c.NextReader()
 		vfAssert(err2 == err && err3 == err, "c04-error-is-sticky")
